@@ -30,7 +30,7 @@ HTML_SPECIAL_VALUES = ["]]>", "]]", "a]]>b", "&#65;", "&amp;", "&lt;b&gt;", "<b>
 BENIGN = "\u0101\u0113\u012b\u014d"                                # one private letter per hole; templates never contain them
 
 OPN = {1: "split_lines", 2: "fragment-helpers", 3: "ANSI", 4: "ANSI-interpolation", 5: "escape",
-       6: "HTML", 7: "HTML-interpolation"}
+       6: "HTML", 7: "HTML-interpolation", 8: "to_formatted_text", 9: "ANSI-plain-text"}
 
 
 def xml_char(c):
@@ -83,6 +83,8 @@ def _exc(e):
         return [2]
     if isinstance(e, ValueError):
         return [1]
+    if isinstance(e, AssertionError):
+        return [4]
     return [99, S(type(e).__name__)]
 
 
@@ -147,6 +149,126 @@ def run_template(cls, parts, vals, specs=None, raw=None):
     return r1
 
 
+# ---- kinds of AnyFormattedText (case kind 8).  A value is a tree:
+#   ["none"] | ["str", s] | ["list", frags, as_FormattedText] | ["magic", frags] | ["ansi", s] | ["html", s]
+#   | ["call", v] | ["merge", [v...]] | ["template", text, [v...]] | ["other", n]
+
+class _Magic:
+    def __init__(self, frs):
+        self.frs = frs
+
+    def __pt_formatted_text__(self):
+        return self.frs
+
+
+def fv_build(t):
+    from prompt_toolkit.formatted_text import ANSI, HTML, FormattedText, Template, merge_formatted_text
+    k = t[0]
+    if k == "none":
+        return None
+    if k == "str":
+        return t[1]
+    if k == "list":
+        return FormattedText(to_tuples(t[1])) if t[2] else to_tuples(t[1])
+    if k == "magic":
+        return _Magic(to_tuples(t[1]))
+    if k == "ansi":
+        return ANSI(t[1])
+    if k == "html":
+        return HTML(t[1])
+    if k == "call":
+        inner = fv_build(t[1])
+        return lambda: inner
+    if k == "merge":
+        return merge_formatted_text([fv_build(x) for x in t[1]])
+    if k == "template":
+        return Template(t[1]).format(*[fv_build(x) for x in t[2]])
+    if k == "other":
+        return t[1]
+    raise ValueError(k)
+
+
+def fv_sx(t):
+    k = t[0]
+    if k == "none":
+        return [0]
+    if k == "str":
+        return [1, S(t[1])]
+    if k == "list":
+        return [2, t[1]]
+    if k == "magic":
+        return [3, t[1]]
+    if k == "ansi":
+        return [3, [[[], [ord(c)], []] for c in t[1]]]
+    if k == "html":
+        return [3, [[[], S(t[1]), []]] if t[1] else []]
+    if k == "call":
+        return [4, fv_sx(t[1])]
+    if k == "merge":
+        return [5, [fv_sx(x) for x in t[1]]]
+    if k == "template":
+        return [6, S(t[1]), [fv_sx(x) for x in t[2]]]
+    if k == "other":
+        return [7, S("%s" % (t[1],))]
+    raise ValueError(k)
+
+
+def fv_text(t):
+    """plain text the value stands for; None when converting it must raise"""
+    k = t[0]
+    if k == "none":
+        return ""
+    if k in ("str", "ansi", "html"):
+        return t[1]
+    if k in ("list", "magic"):
+        return "".join(unS(f[1]) for f in t[1] if ZWE not in unS(f[0]))
+    if k == "call":
+        return fv_text(t[1])
+    if k == "merge":
+        parts = [fv_text(x) for x in t[1]]
+        return None if None in parts else "".join(parts)
+    if k == "template":
+        if "{0}" in t[1]:
+            return None
+        ps = t[1].split("{}")
+        vs = [fv_text(x) for x in t[2]]
+        if len(ps) - 1 != len(vs) or None in vs:
+            return None
+        return "".join(a + b for a, b in zip(ps, vs + [""]))
+    return None
+
+
+def run_convert(tree, style, ac, times=3):
+    """Build the object once, convert it `times` times.  Result: the (common) canonical conversion, or
+    [95, r1, r2, ...] when two conversions of the same object differ, or [94, r1, changed] when a list
+    returned earlier no longer holds what it held when it was returned."""
+    from prompt_toolkit.formatted_text import to_formatted_text
+    try:
+        obj = with_watchdog(lambda: fv_build(tree), 5)
+    except BaseException as e:  # noqa
+        if isinstance(e, (KeyboardInterrupt, SystemExit)):
+            raise
+        return _exc(e)
+    results, kept = [], []
+    for _ in range(times):
+        try:
+            r = with_watchdog(lambda: to_formatted_text(obj, style=style, auto_convert=ac), 5)
+            snap = canon_frags(list(r))
+            kept.append((r, snap))
+            results.append([0, snap])
+        except BaseException as e:  # noqa
+            if isinstance(e, (KeyboardInterrupt, SystemExit)):
+                raise
+            results.append(_exc(e))
+    if any(r != results[0] for r in results):
+        return [95] + results
+    for r, snap in kept:
+        now = canon_frags(list(r))
+        if now != snap:
+            return [94, [0, snap], [0, now]]
+    return results[0]
+
+
 def impl_case(case, m=None):
     from prompt_toolkit.formatted_text import ANSI, HTML, to_formatted_text
     from prompt_toolkit.formatted_text.ansi import ansi_escape
@@ -175,6 +297,13 @@ def impl_case(case, m=None):
         if k == 6:
             s = unS(case[1])
             return _markup(HTML, lambda: HTML(s))
+        if k == 8:
+            return run_convert(m["tree"], unS(case[1]), bool(case[2]))
+        if k == 9:
+            from prompt_toolkit.formatted_text import to_plain_text
+            s = unS(case[1])
+            a = with_watchdog(lambda: ANSI(s), 5)
+            return [S(to_plain_text(a)), [S(t) for st, t in a.__pt_formatted_text__() if ZWE in st]]
         if k == 7:
             return run_template(HTML, [unS(p) for p in case[1]], [unS(v) for v in case[2]],
                                 (m or {}).get("specs"), (m or {}).get("raw"))
@@ -655,8 +784,11 @@ def gen_cases(chk):
     if not thorough:
         for _ in range(12000):
             add("ANSI/length5-sample", [3, S("".join(rng.choice(ANSI_ALPHA) for _ in range(5)))])
+    for w in words(ANSI_ALPHA, 4):
+        add("ANSI-plain-text/exhaustive<=4", [9, S(w)])
     for s in ANSI_SPECIALS:
         add("ANSI/special", [3, S(s)])
+        add("ANSI-plain-text/special", [9, S(s)])
     if lim:
         for s in ["\x1b[" + "1" * lim + "mX", "\x1b[" + "1" * (lim + 1) + "mX", "\x9b" + "0" * (lim + 1) + "CX",
                   "\x1b[5;" + "7" * (lim + 7) + ";1mX"]:
@@ -667,6 +799,7 @@ def gen_cases(chk):
         if rng.random() < 0.15 and s:
             s = s[:rng.randint(0, len(s))]        # truncated
         add("ANSI/token-grammar", [3, S(s)])
+        add("ANSI-plain-text/token-grammar", [9, S(s)])
     for _ in range(20000 if thorough else 2000):
         add("ANSI/random", [3, S("".join(rng.choice(ANSI_ALPHA + ["0", "9", "5", "8", "2", "4", " ", "\u0663", "H"])
                                              for _ in range(rng.randint(6, 24))))])
@@ -747,8 +880,46 @@ def gen_cases(chk):
             vals = [re.sub("[ \n\xa0'\x1b\x01\x02]", "a", v) for v in vals]      # a benign-ish half
         add("HTML-template/random", [7, [S(p) for p in parts], [S(v) for v in vals]], {"holes": holes})
 
+    # ---- every kind of AnyFormattedText, each object converted three times
+    def rand_frs(n=3):
+        return [[S(rng.choice(["", "bold", "class:a", ZWE])), S("".join(rng.choice(["a", "b", "\n", " ", "\u754c"]) for _ in range(rng.choice([0, 1, 2, 4])))),
+                 rng.choice([[], [], [3]])] for _ in range(rng.randint(0, n))]
+
+    def rand_fv(depth):
+        r = rng.random()
+        if depth <= 0 or r < 0.45:
+            return rng.choice([["none"], ["str", rng.choice(["", "x", "a\nb", "{}", "<b>"])], ["list", rand_frs(), rng.randint(0, 1)],
+                               ["magic", rand_frs()], ["ansi", rng.choice(["", "pl", "a b\n"])], ["html", rng.choice(["", "t", "x y"])],
+                               ["other", rng.choice([5, -1, 0])]][:7 if rng.random() < 0.15 else 6])
+        if r < 0.6:
+            return ["call", rand_fv(depth - 1)]
+        if r < 0.85:
+            return ["merge", [rand_fv(depth - 1) for _ in range(rng.choice([0, 1, 2, 2, 3, 4]))]]
+        n = rng.choice([0, 1, 2, 3])
+        # never "{0}" here: Template.__init__ refuses it when the OBJECT is built, before any conversion
+        text = "".join(rng.choice(["{}", "a", " ", "{", "}", "-", "0", "\n"]) for _ in range(rng.randint(0, 5)))
+        text = text.replace("{0}", "{1}")
+        want = text.count("{}") if rng.random() < 0.85 else n
+        return ["template", text, [rand_fv(depth - 1) for _ in range(want)]]
+    leaves = [["none"], ["str", ""], ["str", "s\nt"], ["list", [[S("bold"), S("L"), []]], 0], ["list", [[S(""), S("F\n"), [7]]], 1],
+              ["magic", [[S(ZWE), S("zw"), []], [S("u"), S("M"), []]]], ["ansi", "an"], ["html", "ht"], ["other", 5]]
+    shapes = []
+    for a in leaves:
+        shapes += [a, ["call", a], ["call", ["call", a]], ["merge", [a]], ["template", "<{}>", [a]]]
+        for b in leaves:
+            shapes += [["merge", [a, b]], ["merge", [["merge", [a]], ["call", b]]], ["template", "{}|{}", [a, b]],
+                       ["call", ["merge", [a, b]]]]
+    shapes += [["merge", []], ["template", "", []], ["template", "{}", []], ["template", "no holes", [["str", "x"]]], ["template", "{0}", []], ["template", "a{0}{}", [["str", "x"]]]]
+    # (Template("...{0}...") cannot be constructed: only at top level, where construction order does not matter)
+    for t in shapes:
+        for st, ac in (("", 0), ("class:z", 0), ("", 1)):
+            add("convert/exhaustive-shapes", [8, S(st), ac, fv_sx(t)], {"tree": t})
+    for _ in range(20000 if thorough else 2500):
+        t = rand_fv(3)
+        add("convert/random", [8, S(rng.choice(["", "", "reverse", "class:a " + ZWE])), rng.randint(0, 1), fv_sx(t)], {"tree": t})
+
     # ---- malformed cases: the model must answer bad_case, never an implementation result
-    for bad in ([], [0], [1, 5], [3], [3, [1, 1], S("a")], [4, [S("a")], [S("b")]], [7, [], []], [9, S("a")], [3, [1, 1, 1, 1, 1, 1], S("a")],
+    for bad in ([], [0], [1, 5], [3], [3, [1, 1], S("a")], [4, [S("a")], [S("b")]], [7, [], []], [19, S("a")], [8, S(""), 2, [0]], [8, S(""), 0, [5, [[9]]]], [3, [1, 1, 1, 1, 1, 1], S("a")],
                 [1, [[S("a"), S("b")]]], [2, S(""), [[S("a"), 5, []]]]):
         add("malformed", bad, {"malformed": True})
     return cases, meta, dist
@@ -782,6 +953,39 @@ def oracle_case(case, res, m):
                 cache[tuple(v)] = run_template(cls, p, v)
             return cache[tuple(v)]
         return oracle_inert(kind, parts, vals, m["holes"], run)
+    if k == 9:
+        s = unS(case[1])
+        if not (isinstance(res, list) and len(res) == 2 and isinstance(res[0], list)):
+            return ("to_plain_text(ANSI(%r)) raised" % s[:60], {"op": "ANSI", "family": "parse-raises", "cause": ansi_raise_cause(s)})
+        ev, ez, amb = ansi_expected(s)
+        if not amb and (unS(res[0]), [unS(z) for z in res[1]]) != (ev, ez):
+            return ("to_plain_text(ANSI(%r)) = %r / zero-width %r, expected %r / %r" % (s[:60], unS(res[0])[:60], res[1][:3], ev[:60], ez[:3]),
+                    {"op": "ANSI", "family": "visible-text"})
+        return None
+    if k == 8:
+        inp = "to_formatted_text(%s, style=%r, auto_convert=%r)" % (short(m["tree"], 160), unS(case[1]), bool(case[2]))
+        if res and res[0] == 95:
+            return ("%s: converting the same object again gives something else: %s" % (inp, short(res[1:], 240)),
+                    {"op": "to_formatted_text", "family": "repeat-differs"})
+        if res and res[0] == 94:
+            return ("%s: a fragment list returned earlier changed afterwards: %s -> %s" % (inp, short(res[1], 120), short(res[2], 120)),
+                    {"op": "to_formatted_text", "family": "returned-list-changed"})
+        want = fv_text(m["tree"])
+        if m["tree"][0] == "other":
+            want = ("%s" % (m["tree"][1],)) if case[2] else None
+        if want is None:
+            if res[0] == 0:
+                return ("%s: expected an exception, got %s" % (inp, short(res, 120)), {"op": "to_formatted_text", "family": "accepts-invalid"})
+            return None
+        if res[0] != 0:
+            return ("%s raised (%r)" % (inp, res), {"op": "to_formatted_text", "family": "raises"})
+        st = unS(case[1])
+        got = "".join(unS(f[1]) for f in res[1] if ZWE not in unS(f[0]))
+        if ZWE in st:
+            want = ""
+        if got != want:
+            return ("%s: plain text %r, expected %r" % (inp, got, want), {"op": "to_formatted_text", "family": "visible-text"})
+        return None
     if k == 6 and m and "tree" in m:
         exp = expected_html(m["tree"])
         s = unS(case[1])
@@ -806,8 +1010,10 @@ def nontrivial(case, res):
         return isinstance(res, list) and len(res) > 1
     if k == 2:
         return isinstance(res, list) and len(res) == 4 and len(res[2]) > 0
-    if k in (3, 4, 6, 7):
+    if k in (3, 4, 6, 7, 8):
         return isinstance(res, list) and len(res) == 2 and res[0] == 0 and len(res[1]) > 0
+    if k == 9:
+        return isinstance(res, list) and len(res) == 2 and res[0] != case[1]
     if k == 5:
         return isinstance(res, list) and len(res) == 2 and (res[0] != case[1] or res[1] != case[1])
     return False
@@ -825,8 +1031,10 @@ def describe_case(case):
             return "split_lines(%s)" % short(to_tuples(case[1]), 120)
         if k == 2:
             return "helpers(style=%r, %s)" % (unS(case[1]), short(to_tuples(case[2]), 120))
-        if k in (3, 5, 6):
+        if k in (3, 5, 6, 9):
             return "%s(%s)" % (OPN[k], short(unS(case[1]), 120))
+        if k == 8:
+            return "to_formatted_text(<value %s>, style=%r, auto_convert=%r)" % (short(case[3], 100), unS(case[1]), bool(case[2]))
         if k in (4, 7):
             tm, tf = templates_for([unS(p) for p in case[1]])
             return "%s(%s) %% %s" % ("ANSI" if k == 4 else "HTML", short(tm, 100), short(tuple(unS(v) for v in case[2]), 100))
@@ -873,7 +1081,7 @@ def main(tier):
         impl_results.append(res)
         chk.count_case(c, nontrivial(c, res))
         try:
-            bad = oracle_case(c, res, m) if (m is not None or c[0] not in (4, 6, 7)) else None
+            bad = oracle_case(c, res, m) if (m is not None or c[0] not in (4, 6, 7, 8)) else None
         except Hang:
             bad = ("implementation hung", {"op": OPN.get(c[0], "?"), "family": "hang"})
         if bad:
@@ -964,7 +1172,7 @@ def replay(data):
     print("result:  " + short(res, 400))
     rc = 0
     bad = None
-    if m is not None or case[0] not in (4, 6, 7):
+    if m is not None or case[0] not in (4, 6, 7, 8):
         bad = oracle_case(case, res, m)
     if bad:
         print("ORACLE FAILS: %s  tags=%r" % bad)
